@@ -22,6 +22,9 @@ C['C01']=("Static analysis: the decision table of the userspace matcher's scan l
 C['C07']=("Static analysis: decision tables of both DNS matcher scan loops (exhaustive constant propagation over their CFGs) equal the first-match reference; sentinel algebra and OR/AND name agreement; emitter naming discipline; reject-before-cache dominance and the answer-less reject reply; strictly growing, bounded re-ask depth on every recursive path; response action switch and the as-is default for unregistered answering upstreams.",
  "Trusted: go/types, go/cfg, internal/fdt constant folding, the reference transition in internal/props/scan.go. Not decided: name matching on values (C11), IP containment (C12), upstream behaviour, singleflight.",
  "static analysis: finite decision table by constant-propagation dataflow over go/cfg + dominance / must-pass-through rules + recursion-argument growth rule")
+C['C12']=("Static analysis: the key length emitted by trie.Prefix2bin128 and the PrefixLen written by cidrToBpfLpmKey (real-build variant) are propagated by constant-propagation dataflow for every prefix length 0..128 / 0..32 and must equal bits+96·[IPv4]; probes always use the mapped /128 form; LPM set sharing is guarded by prefixesEqual; sibling emitters agree; the trie walk tests the leaf flag at every node; construction errors are consulted.",
+ "Trusted: go/types, go/cfg, internal/fdt constant folding, the real-build overlay (bpf_stub.go residue) used to type-check bpf_utils.go. Not decided: rank/select trie arithmetic on concrete values, kernel LPM semantics.",
+ "static analysis: finite decision table over an integer domain (exhaustive 162 pairs) by constant propagation over go/cfg, both build variants + guard dominance + sibling structural diff + loop back-edge must-pass-through")
 def chk(pid):
     text,note,tech=C[pid]
     return {"property_id":pid,"quick_cmd":f"bin/daecheck -p {pid} -tier quick","thorough_cmd":f"bin/daecheck -p {pid} -tier thorough","evidence_file":f"/verif/evidence/{pid}.json",
